@@ -315,6 +315,26 @@ theorem run_keeps_the_best_sorted_by_class_and_size (P : Params C D) (cfg : Cfg)
       rw [hs]; exact hm c
     exact generations_kept P cfg dr S hc hm hinf hn _ _ hinvm1 hm4 e.score hSe (hk e he)
 
+/-- **`solve` returns on every well-formed configuration**: `0 < n_hof ≤ n_pop`, a metric that never returns `inf`,
+    `n_pop` initial circuits and — if selection is active with tournament size `k > 0` — tournament draws that are
+    non-empty lists of indices `< n_pop` (what `random.choices(population, k=k)` produces).  So the hypothesis
+    `solve … = .ok …` of the theorems of this section is met by all of these, for every transformation, every metric,
+    every `n_stop` and every mutation draw; and after each generation the hall of fame holds no empty slot. -/
+theorem solve_returns_on_wellformed_configurations (P : Params C D) (cfg : Cfg) (dr : Draws D) (tp : TransProbs)
+    (init : List C) (hlen : init.length = cfg.nPop) (hfin : FiniteMetric P) (hn : 0 < cfg.nHof)
+    (hle : cfg.nHof ≤ cfg.nPop)
+    (hd : cfg.selectionActive = true → cfg.tournamentK ≠ 0 → ∀ g, DrawsValid cfg.nPop (dr.tournament g)) :
+    ∃ s res, solve P cfg dr tp init = .ok (s, res) :=
+  solve_returns P cfg dr tp init hlen hfin hn hle hd
+
+/-- **Boundary of the quantifier "all settings".**  With `n_hof > n_pop` (and `n_stop ≥ 1`) `solve` never returns: the
+    code reads `.depth` of a still-empty hall-of-fame slot in `update_logs` during the first generation.  (So every
+    theorem above with hypothesis `solve … = .ok …` is about configurations with `n_hof ≤ n_pop` or `n_stop = 0`.) -/
+theorem hof_larger_than_population_never_returns (P : Params C D) (cfg : Cfg) (dr : Draws D) (tp : TransProbs)
+    (init : List C) (hlt : init.length < cfg.nHof) (hstop : 0 < cfg.nStop) :
+    ∀ r, solve P cfg dr tp init ≠ .ok r :=
+  solve_fails_of_hof_gt_pop P cfg dr tp init hlt hstop
+
 /-! ## 4. Reproducibility -/
 
 /-- **The run is a function of the configuration and of the draws it consumes**: two draw streams that agree on the
@@ -377,6 +397,16 @@ theorem measurement_positions_characterised (d : DagView) (e e' : Edge) :
     · simp [ha2, ha3, ha4, ha5]
     · simp [hb2, hb3]
 
+/-! ## 5a. `SolverResult.sort_by` -/
+
+/-- sorting a result table by a score column keeps exactly the same rows (every circuit stays with its own properties),
+    orders them by non-decreasing key, and is stable -/
+theorem solver_result_sort_by (α : Type) (key : α → Score) (rows : List α) :
+    (sortRowsBy key rows).Perm rows ∧
+    List.Pairwise (fun a b => (key a).le (key b) = true) (sortRowsBy key rows) ∧
+    ∀ a b, (key a).le (key b) = true → [a, b].Sublist rows → [a, b].Sublist (sortRowsBy key rows) :=
+  sortRowsBy_spec key rows
+
 /-! ## 5b. Transformation probabilities -/
 
 /-- **`adapt_probabilities` always yields a probability vector** with the same transformations in the same order, for
@@ -423,6 +453,18 @@ example : okWith exRun (fun (s, r) => r.score == Score.fin (1 / 4) && s.hof.map 
     && s.hof.map (·.circ) == [some 11, some 3] && s.pop.map (·.circ) == [12, 13, 14]) = true := by decide +kernel
 
 example : [5, 6, 7].length = exCfg.nPop := rfl
+
+/-- the toy configuration meets the hypotheses of `solve_returns_on_wellformed_configurations` -/
+example : FiniteMetric exP ∧ 0 < exCfg.nHof ∧ exCfg.nHof ≤ exCfg.nPop ∧ ∀ g, DrawsValid exCfg.nPop (exDr.tournament g) := by
+  refine ⟨fun c => ⟨_, rfl⟩, by decide, by decide, ?_⟩
+  intro g i hi
+  refine ⟨by simp [exDr], ?_⟩
+  intro x hx
+  simp only [exDr, List.mem_cons, List.not_mem_nil, or_false] at hx
+  have h3 : exCfg.nPop = 3 := rfl
+  rcases hx with rfl | rfl
+  · exact hi
+  · rw [h3]; omega
 
 /-- the scores of the toy metric (and `inf`) are coherent for numpy's tolerances: the hypothesis of the class-level
     theorems is satisfiable by a non-trivial score set -/
